@@ -145,4 +145,73 @@ theorem catmull_points_on_spline_real (v1 v2 v3 v4 : Pos ℝ) :
   · congr 1
     congr 1 <;> (push_cast; ring)
 
+/-! ### interpolation error of a cubic against its chord (pure algebra) -/
+
+/-- the real cubic `c0 + c1 t + c2 t² + c3 t³`. -/
+def cubicPoly (c0 c1 c2 c3 t : ℝ) : ℝ := c0 + c1 * t + c2 * t ^ 2 + c3 * t ^ 3
+
+/-- the chord through `(a, qa)`, `(b, qb)` at `t`: `lerp(qa, qb)` with weight `(t − a)/(b − a)`. -/
+noncomputable def chordAt (a b qa qb t : ℝ) : ℝ := qa + (t - a) / (b - a) * (qb - qa)
+
+/-- **interpolation-error identity**: `q(t) − chord(t) = (t − a)(t − b)·(c2 + c3·(t + a + b))`. -/
+theorem cubic_chord_error (c0 c1 c2 c3 a b t : ℝ) (hab : a ≠ b) :
+    cubicPoly c0 c1 c2 c3 t - chordAt a b (cubicPoly c0 c1 c2 c3 a) (cubicPoly c0 c1 c2 c3 b) t =
+      (t - a) * (t - b) * (c2 + c3 * (t + a + b)) := by
+  have h : b - a ≠ 0 := sub_ne_zero.mpr (Ne.symm hab)
+  unfold cubicPoly chordAt
+  field_simp
+  ring
+
+/-- the same identity with the chord written as `(1 − l)·q(a) + l·q(b)`, `t = a + l (b − a)` (no division). -/
+theorem cubic_chord_error_lerp (c0 c1 c2 c3 a b l : ℝ) :
+    cubicPoly c0 c1 c2 c3 (a + l * (b - a)) -
+        ((1 - l) * cubicPoly c0 c1 c2 c3 a + l * cubicPoly c0 c1 c2 c3 b) =
+      -(l * (1 - l) * (b - a) ^ 2) * (c2 + c3 * ((a + l * (b - a)) + a + b)) := by
+  unfold cubicPoly; ring
+
+/-- `|(t − a)(t − b)| ≤ (b − a)²/4` on `[a, b]`. -/
+theorem abs_node_le {a b t : ℝ} (hat : a ≤ t) (htb : t ≤ b) : |(t - a) * (t - b)| ≤ (b - a) ^ 2 / 4 := by
+  rw [abs_le]
+  constructor <;> nlinarith [sq_nonneg (t - a + (t - b)), mul_nonneg (sub_nonneg.2 hat) (sub_nonneg.2 htb)]
+
+/-- **chord error, first form**: `|q(t) − chord(t)| ≤ (b − a)²/4 · K` if `|c2 + c3 (s + a + b)| ≤ K` on `[a, b]`. -/
+theorem cubic_chord_error_le (c0 c1 c2 c3 a b t K : ℝ) (hab : a < b) (hat : a ≤ t) (htb : t ≤ b)
+    (hK : ∀ s, a ≤ s → s ≤ b → |c2 + c3 * (s + a + b)| ≤ K) :
+    |cubicPoly c0 c1 c2 c3 t - chordAt a b (cubicPoly c0 c1 c2 c3 a) (cubicPoly c0 c1 c2 c3 b) t| ≤
+      (b - a) ^ 2 / 4 * K := by
+  rw [cubic_chord_error _ _ _ _ _ _ _ (ne_of_lt hab), abs_mul]
+  exact mul_le_mul (abs_node_le hat htb) (hK t hat htb) (abs_nonneg _) (by positivity)
+
+/-- `c2 + c3 (t + a + b)` is half the second derivative `q''(ξ) = 2 c2 + 6 c3 ξ` at `ξ = (t + a + b)/3 ∈ [a, b]`. -/
+theorem half_second_deriv (c2 c3 a b t : ℝ) :
+    c2 + c3 * (t + a + b) = (2 * c2 + 6 * c3 * ((t + a + b) / 3)) / 2 := by ring
+
+/-- **chord error, classical form**: `|q(t) − chord(t)| ≤ (b − a)²/8 · sup_{[a,b]} |q''|`, `q''(ξ) = 2 c2 + 6 c3 ξ`. -/
+theorem cubic_chord_error_le_second_deriv (c0 c1 c2 c3 a b t M : ℝ) (hab : a < b) (hat : a ≤ t) (htb : t ≤ b)
+    (hM : ∀ ξ, a ≤ ξ → ξ ≤ b → |2 * c2 + 6 * c3 * ξ| ≤ M) :
+    |cubicPoly c0 c1 c2 c3 t - chordAt a b (cubicPoly c0 c1 c2 c3 a) (cubicPoly c0 c1 c2 c3 b) t| ≤
+      (b - a) ^ 2 / 8 * M := by
+  have h := cubic_chord_error_le c0 c1 c2 c3 a b t (M / 2) hab hat htb (by
+    intro s hs1 hs2
+    rw [half_second_deriv, abs_div, abs_of_pos (by norm_num : (0 : ℝ) < 2)]
+    exact div_le_div_of_nonneg_right (hM _ (by linarith) (by linarith)) (by norm_num))
+  calc _ ≤ (b - a) ^ 2 / 4 * (M / 2) := h
+    _ = (b - a) ^ 2 / 8 * M := by ring
+
+/-- the classical bound is attained by quadratics at the midpoint: it cannot be improved. -/
+theorem cubic_chord_error_sharp (c0 c1 c2 a b : ℝ) (hab : a ≠ b) :
+    |cubicPoly c0 c1 c2 0 ((a + b) / 2) -
+        chordAt a b (cubicPoly c0 c1 c2 0 a) (cubicPoly c0 c1 c2 0 b) ((a + b) / 2)| =
+      (b - a) ^ 2 / 8 * |2 * c2| := by
+  rw [cubic_chord_error _ _ _ _ _ _ _ hab]
+  have : ((a + b) / 2 - a) * ((a + b) / 2 - b) * (c2 + 0 * ((a + b) / 2 + a + b)) = -((b - a) ^ 2 / 8) * (2 * c2) := by
+    ring
+  rw [this, abs_mul, abs_neg, abs_of_nonneg (by positivity)]
+
+/-- hypotheses of the error lemmas are satisfiable: `q = t³` on `[0, 1/50]`, `|q''| = 6ξ ≤ 3/25`. -/
+example : |cubicPoly 0 0 0 1 (1 / 100) - chordAt 0 (1 / 50) (cubicPoly 0 0 0 1 0) (cubicPoly 0 0 0 1 (1 / 50)) (1 / 100)| ≤
+    (1 / 50 - 0) ^ 2 / 8 * (3 / 25) :=
+  cubic_chord_error_le_second_deriv 0 0 0 1 0 (1 / 50) (1 / 100) (3 / 25) (by norm_num) (by norm_num) (by norm_num)
+    (by intro ξ h0 h1; rw [abs_of_nonneg (by linarith)]; linarith)
+
 end Rosu.C17
